@@ -461,6 +461,10 @@ func (e *evalContext) evaluateImport(myImports map[string]*value, decl *ast.Impo
 			e.errorf(decl.Environment, "%s", err.Error())
 			return
 		}
+		if env == nil {
+			// The imported definition could not be parsed; its diagnostics have been recorded above.
+			return
+		}
 
 		imp := newEvalContext(e.ctx, e.validating, name, env, dec, e.providers, e.environments, e.imports, e.execContext, e.showSecrets)
 		v, diags := imp.evaluate()
